@@ -14,6 +14,7 @@ use crate::infrastructure::{
         DataRepresentationQosPolicy, DestinationOrderQosPolicyKind, DurabilityQosPolicyKind,
         HistoryQosPolicyKind, Length, LivelinessQosPolicyKind, OwnershipQosPolicyKind,
         PresentationQosPolicy, PresentationQosPolicyAccessScopeKind, ReliabilityQosPolicyKind,
+        ResourceLimitsQosPolicy,
     },
     time::{Duration, DurationKind},
 };
@@ -135,19 +136,18 @@ pub fn any_presentation() -> PresentationQosPolicy {
         ordered_access: kani::any(),
     }
 }
-/// A data representation list of symbolic length 0..=max (max <= 2) with symbolic ids.
+/// A data representation list of symbolic length 0..=max (max <= 2) with symbolic ids. Each
+/// length is built as its own concrete-size vector (cheaper for the solver than conditional pushes).
 pub fn any_representation(max: usize) -> DataRepresentationQosPolicy {
     let n: usize = kani::any();
     kani::assume(n <= max && n <= 2);
     let a: u16 = kani::any();
     let b: u16 = kani::any();
-    let mut value = Vec::new();
-    if n >= 1 {
-        value.push(a);
-    }
-    if n >= 2 {
-        value.push(b);
-    }
+    let value = match n {
+        0 => Vec::new(),
+        1 => alloc::vec![a],
+        _ => alloc::vec![a, b],
+    };
     DataRepresentationQosPolicy { value }
 }
 
@@ -309,3 +309,92 @@ impl crate::dcps::dcps_domain_participant::rtps_traits::RtpsReader for NoReader 
 pub fn local_reader(qos: DataReaderQos) -> DataReaderEntity<NoReader> {
     DataReaderEntity::new(InstanceHandle::new([0xEE; 16]), qos, String::new(), NoReader(Vec::new()))
 }
+
+/// Stub for `tracing::level_filters::LevelFilter::current` (the global maximum tracing level):
+/// tracing is OFF, as in a process that installed no subscriber.  Without it CBMC cannot prune the
+/// `#[tracing::instrument]` span construction, which Debug-formats every (symbolic) argument.
+pub fn tracing_off() -> tracing::level_filters::LevelFilter {
+    tracing::level_filters::LevelFilter::OFF
+}
+
+// ---- C37 reference model: DDS 1.4 §2.2.3 consistency rules and the "Changeable" column ------------
+//   RESOURCE_LIMITS  max_samples >= max_samples_per_instance            (§2.2.3.19)
+//   HISTORY          KEEP_LAST depth <= max_samples_per_instance        (§2.2.3.18)
+//   DEADLINE / TIME_BASED_FILTER  deadline period >= minimum_separation (§2.2.3.7, §2.2.3.12, readers)
+//   DATA_REPRESENTATION  a writer offers at most one representation     (XTypes 1.3 §7.6.3.1.1)
+//   LENGTH_UNLIMITED is larger than every limit.
+pub fn length_ge(a: Length, b: Length) -> bool {
+    match (a, b) {
+        (Length::Unlimited, _) => true,
+        (Length::Limited(_), Length::Unlimited) => false,
+        (Length::Limited(x), Length::Limited(y)) => x >= y,
+    }
+}
+pub fn depth_fits(h: HistoryQosPolicyKind, per_instance: Length) -> bool {
+    match (h, per_instance) {
+        (HistoryQosPolicyKind::KeepAll, _) => true,
+        (HistoryQosPolicyKind::KeepLast(_), Length::Unlimited) => true,
+        (HistoryQosPolicyKind::KeepLast(d), Length::Limited(n)) => (d as i64) <= (n as i64),
+    }
+}
+pub fn limits_consistent(h: HistoryQosPolicyKind, rl: &ResourceLimitsQosPolicy) -> bool {
+    length_ge(rl.max_samples, rl.max_samples_per_instance) && depth_fits(h, rl.max_samples_per_instance)
+}
+pub fn non_negative(l: Length) -> bool {
+    match l {
+        Length::Unlimited => true,
+        Length::Limited(n) => n >= 0,
+    }
+}
+pub fn limits_non_negative(rl: &ResourceLimitsQosPolicy) -> bool {
+    non_negative(rl.max_samples) && non_negative(rl.max_instances) && non_negative(rl.max_samples_per_instance)
+}
+
+pub fn writer_consistent(q: &DataWriterQos) -> bool {
+    q.representation.value.len() <= 1 && limits_consistent(q.history.kind, &q.resource_limits)
+}
+pub fn reader_consistent(q: &DataReaderQos) -> bool {
+    limits_consistent(q.history.kind, &q.resource_limits)
+        && dur_le(&q.time_based_filter.minimum_separation, &q.deadline.period)
+}
+pub fn topic_consistent(q: &TopicQos) -> bool {
+    limits_consistent(q.history.kind, &q.resource_limits)
+}
+pub fn writer_limits_non_negative(q: &DataWriterQos) -> bool {
+    limits_non_negative(&q.resource_limits)
+}
+pub fn reader_limits_non_negative(q: &DataReaderQos) -> bool {
+    limits_non_negative(&q.resource_limits)
+}
+pub fn topic_limits_non_negative(q: &TopicQos) -> bool {
+    limits_non_negative(&q.resource_limits)
+}
+/// The seven DDS policies with Changeable = NO are unchanged.
+pub fn writer_immutables_equal(a: &DataWriterQos, b: &DataWriterQos) -> bool {
+    a.durability == b.durability
+        && a.liveliness == b.liveliness
+        && a.reliability == b.reliability
+        && a.destination_order == b.destination_order
+        && a.history == b.history
+        && a.resource_limits == b.resource_limits
+        && a.ownership == b.ownership
+}
+pub fn reader_immutables_equal(a: &DataReaderQos, b: &DataReaderQos) -> bool {
+    a.durability == b.durability
+        && a.liveliness == b.liveliness
+        && a.reliability == b.reliability
+        && a.destination_order == b.destination_order
+        && a.history == b.history
+        && a.resource_limits == b.resource_limits
+        && a.ownership == b.ownership
+}
+pub fn topic_immutables_equal(a: &TopicQos, b: &TopicQos) -> bool {
+    a.durability == b.durability
+        && a.liveliness == b.liveliness
+        && a.reliability == b.reliability
+        && a.destination_order == b.destination_order
+        && a.history == b.history
+        && a.resource_limits == b.resource_limits
+        && a.ownership == b.ownership
+}
+
